@@ -162,6 +162,7 @@ def parseCmd {S} (cd : Codec S) (toks : List String) : Option (Cmd S) :=
     pure (.convl l (← f.toNat?) (← d.toNat?) (← r.toNat?) (← c.toNat?) (← sr.toNat?) (← sc'.toNat?)
       (← parseAct act) (← scs w) (← scs b))
   | ["lfwd", w, l, a] => some (.lfwd w l a)
+  | ["lflag", l, which, tr] => do pure (.lflag l (← which.toNat?) (tr == "1"))
   | ["model", m, cost, lr, ls] => do
     let c ← if cost == "mse" then some Cost.mse else if cost == "xent" then some Cost.xent else none
     pure (.model m c (← sc lr) (← parseNames ls))
